@@ -488,6 +488,7 @@ fn show_err(e: &xml_xpath::eval::error::Error) -> String {
         E::InvalidArgumentCount(s) => format!("err:InvalidArgumentCount:{}", enc(s)),
         E::NotFoundFunction(s) => format!("err:NotFoundFunction:{}", enc(s)),
         E::NotFoundNamespace(s) => format!("err:NotFoundNamespace:{}", enc(s)),
+        E::NotFoundVariable(s) => format!("err:NotFoundVariable:{}", enc(s)),
     }
 }
 
